@@ -29,7 +29,9 @@ def parseTok (s : String) : Option Tok :=
   | _ => none
 
 def parsePred : String → Option Pred
-  | "absent" => some .absent | "keep" => some (.ret true) | "drop" => some (.ret false) | "err" => some .err | _ => none
+  | "absent" => some .absent | "keep" => some (.ret true) | "drop" => some (.ret false) | "err" => some .err
+  | "errkeep" => some .err     -- (true, err): an error from the predicate is an error whatever the boolean says
+  | _ => none
 
 def showOut : Out → String
   | .forward b => "forward " ++ tohex b
